@@ -47,7 +47,7 @@ func genCase(t *rapid.T) Case {
 		return c
 	}
 	c.Items = live.Items(t, buf, 40)
-	c.Chunks = live.Chunking(t, midiref.Serialise(c.Items), 5000)
+	c.Chunks = live.ChunkingToLastStamp(t, midiref.Serialise(c.Items), 5000)
 	if rapid.IntRange(0, 3).Draw(t, "earlierListening?") == 0 {
 		c.Decoy = &live.Opts{ActiveSense: rapid.Bool().Draw(t, "dAS"), TimeCode: rapid.Bool().Draw(t, "dTC"), SysEx: rapid.Bool().Draw(t, "dSX"),
 			BufSize: uint32(rapid.SampledFrom([]int{0, 3, 5, 8}).Draw(t, "dBuf"))}
